@@ -233,6 +233,16 @@ pub fn neighbours(d: &RefState, rng: &mut Rng) -> Vec<(String, RefState)> {
         x.choices[i].insert("k0".to_string(), o);
     }
     out.push(("choice".to_string(), x));
+    // local state of one actor, one history event
+    let i = rng.usize_below(n);
+    let mut x = d.clone();
+    x.actors[i].v = x.actors[i].v.wrapping_add(1);
+    out.push(("actor-state".to_string(), x));
+    let mut x = d.clone();
+    if x.hist.0.pop().is_none() {
+        x.hist.0.push(HEv { incoming: true, src: Id::from(0), dst: Id::from(0), msg: M { tag: 0, who: None } });
+    }
+    out.push(("history".to_string(), x));
     // in-flight message: drop one / retarget one
     let all = d.net.all();
     if let Some(e) = all.first() {
